@@ -118,6 +118,16 @@ def features():
     # priorities
     yield ("chan-priority", "global", dict(), "broadcast chan b2; chan priority bc < b2;", {"stochastic", "concrete"})
     yield ("chan-priority", "default", dict(), "chan priority bc < default;", {"stochastic", "concrete"})
+    # every channel-priority list of 1..3 distinct elements with every choice of separators: a list without `<` is a priority
+    # declaration too (the channels not listed and the internal transitions are on the default level below)
+    elems = ["bc", "b2", "default", "bcs[0]", "bcs[1]"]
+    for n in (1, 2, 3):
+        for combo in itertools.permutations(elems, n):
+            for seps in itertools.product((", ", " < "), repeat=n - 1):
+                text = combo[0] + "".join(sp + e for sp, e in zip(seps, combo[1:]))
+                yield ("chan-priority", "list:" + text, dict(), "broadcast chan b2; broadcast chan bcs[2]; chan priority %s;" % text,
+                       {"stochastic", "concrete"})
+    yield ("chan-priority", "two-declarations", dict(), "broadcast chan b2; chan priority bc; chan priority b2;", {"stochastic", "concrete"})
 
 
 def controls():
@@ -246,7 +256,11 @@ def run_shard(arg):
                 part.nontrivial_case(cid + str(order))
                 part.outcome("%s:%s" % (cid, "accepted" if X.accepted(r) else "rejected"))
         # process priorities
-        for sysline, name in (("P = T(); Q = U1(); system P < Q;", "process-priority"),):
+        for sysline, name in (("P = T(); Q = U1(); system P < Q;", "process-priority"),
+                              ("P = T(); Q = U1(); R = T(); system P, Q < R;", "process-priority:last"),
+                              ("P = T(); Q = U1(); R = T(); system P < Q, R;", "process-priority:first"),
+                              ("P = T(); Q = U1(); R = T(); system P < Q < R;", "process-priority:both"),
+                              ("system T < U1;", "process-priority:templates")):
             doc = X.nta(G0, [T("T"), T("U1")], sysline)
             r = X.run_docs(w, [doc], want=["noinv"])[0]
             part.count()
@@ -254,7 +268,7 @@ def run_shard(arg):
                 part.nontrivial_case(name)
                 bad = [meth for meth in ("stochastic", "concrete") if r["methods"][meth]]
                 if bad:
-                    part.violation("supported-despite:process-priority:" + "+".join(bad), "process priorities but %s supported" % bad,
+                    part.violation("supported-despite:%s:%s" % (name, "+".join(bad)), "process priorities (%s) but %s supported" % (sysline, bad),
                                    {"op": "xml", "buf": doc})
                 else:
                     part.outcome("restriction-reported")
